@@ -47,7 +47,7 @@ def dtable(code, dn, kw):
 
 
 def small_subjects(tier):
-    hi = 6 if tier == 'quick' else 8
+    hi = 6 if tier == 'quick' else 7
     out = []
     for name in codes.CLASSES:
         ms = hi if codes.dimension(name) == 2 else 3
@@ -206,7 +206,7 @@ def run(tier):
         raise common.MachineryError('Noise_Model violated')
     jobs = []
     for k, (name, size, dn, kw) in enumerate(small_subjects(tier)):
-        chans = CHANS if tier != 'quick' else [CHANS[k % len(CHANS)], CHANS[(k + 3) % len(CHANS)], CHANS[3]]
+        chans = [CHANS[(k + j) % len(CHANS)] for j in range(5)] if tier != 'quick' else [CHANS[k % len(CHANS)], CHANS[(k + 3) % len(CHANS)], CHANS[3]]
         for chan in dict.fromkeys(chans):
             jobs.append((name, size, dn, kw, chan))
     recs = common.pmap(drive_all_safe, jobs, procs=15)
